@@ -745,7 +745,8 @@ def execute(case):
                     base["points"][0][1], first_reused["points"][0][1]), {"op": op["op"], "stage": "fresh_vs_prepared"}))
         if base["n_inv"] > 0:
             fop = dict(op, base_n_inv=base["n_inv"])
-            for plan in enumerate_faults(base, enum):
+            # NumSysLinRel costs ~250 ms per call (symbolic Min): faults at its first two invocations only
+            for plan in enumerate_faults(base, dict(enum, max_inv=2) if op.get("chain") == "linrel" else enum):
                 one(fop, plan, reuse, "faulted")
             # S3: recovery within one call once faults stop, on the very same objects
             after = one(op, [], reuse, "recovery")
